@@ -25,15 +25,17 @@ TAGS = {
     5: 'error behaviour of NMTranParser.parse differs from model', 6: 'post_process of a parser class differs from the tables',
     7: 'control-stream edit result differs from model', 10: 'CodeRecord.update_statements keeps other nodes than the model',
     8: 'AttrTree.__str__ differs from model str',
-    9: 'unexpected exception class from the implementation',
+    9: 'unexpected exception class from the implementation', 29: 'OptionRecord edit result differs from model',
+    31: 'set_option did not set the value of the existing option',
+    32: 'an OptionRecord edit method raised an internal error (IndexError / NoSuchRuleException)',
     11: 'str(parse(T)) != T', 12: 'str(record.root) != content given to the record parser',
     13: 'control-stream edit changed or reordered records it should not touch',
     14: 'update_source() of an unmodified model changes the code',
     15: 'a single-component edit changed records of an unrelated kind',
     16: 'an edit lost or reordered a comment / verbatim line that stands between the statements of a code record',
 }
-CORR = (1, 2, 3, 4, 5, 6, 7, 8, 9)
-ORACLE = (11, 12, 13)
+CORR = (1, 2, 3, 4, 5, 6, 7, 8, 9, 29)
+ORACLE = (11, 12, 13, 31, 32)
 
 OKCHARS = set(range(32, 127)) - {ord('"')} | {10, 9}
 
@@ -265,8 +267,70 @@ def gen_edits(rng, cs, ins):
     return out, kinds
 
 
+# ------------------------------------------------------------------ option-record edits (tie of section 11 of the model)
+def gen_opt_edits(rng, cs, ins, explicit=()):
+    """Direct calls of the OptionRecord edit methods on the real option records of the parsed stream."""
+    from pharmpy.internals.parse import NoSuchRuleException
+    from pharmpy.model.external.nonmem.records.option_record import OptionRecord
+    recs = [r for r in cs.records if isinstance(r, OptionRecord)]
+    out, kinds = [], []
+    for name in ('option', 'KEY', 'VALUE', 'EQUAL'):
+        ins.names.get(name)
+    def run_op(rec, kind, key, oval, new):
+        after, exc = None, 0
+        try:
+            if kind == 1:
+                res = rec.set_option(key, oval)
+            elif kind == 2:
+                res = rec.remove_option(key)
+            elif kind == 3:
+                res = rec.append_option(key, oval)
+            elif kind == 4:
+                res = rec.prepend_option(key, oval)
+            else:
+                res = rec.replace_option(key, new)
+            after = res.root.children
+        except IndexError:
+            exc = 1
+        except (NoSuchRuleException, AttributeError):
+            exc = 2
+        except Exception:
+            exc = 9
+        kids = lambda ch: ct.lst([ins.ser_attr(c) for c in ch])
+        out.append(f'(mkOpt {kind} {kids(rec.root.children)} {enc(key)} {ct.opt(None if oval is None else enc(oval))} {enc(new)} '
+                   f'{"None" if after is None else "(Some " + kids(after) + ")"} {exc})')
+        kinds.append(kind if exc == 0 else -kind)
+
+    for ri, kind, key, oval, new in explicit:
+        if ri < len(recs):
+            run_op(recs[ri], kind, key, oval, new)
+    for rec in rng.sample(recs, min(len(recs), 3)):
+        keys, after_nl = [], []
+        prev = None
+        for c in rec.root.children:
+            if getattr(c, 'rule', None) == 'option' and hasattr(c, 'children'):
+                k = [t for t in c.children if t.rule == 'KEY']
+                if k:
+                    keys.append(str(k[0].value))
+                    if prev is not None and prev.rule in ('NEWLINE', 'COMMENT'):
+                        after_nl.append(str(k[0].value))
+            prev = c
+        if after_nl:
+            run_op(rec, 2, rng.choice(after_nl), None, '')          # an option that follows a NEWLINE / COMMENT child
+        if rec.root.children and rec.root.children[-1].rule == 'WS':
+            run_op(rec, 3, 'APPENDED', rng.choice([None, '1']), '')  # trailing blank space is dropped by append_option
+        for _ in range(rng.choice([1, 2, 3])):
+            kind = rng.choice([1, 1, 2, 2, 3, 4, 5])
+            key = rng.choice(keys) if keys and rng.random() < 0.75 else rng.choice(['NEWOPT', 'MAXEVAL', 'FILE', 'X'])
+            val = rng.choice(['1', '99', 'abc.tab', '(1,2)'])
+            new = rng.choice(['METH', 'NEWKEY', 'Z9'])
+            oval = val if kind in (1,) or (kind in (3, 4) and rng.random() < 0.6) else None
+            run_op(rec, kind, key, oval, new)
+    return out, kinds
+
+
 # ------------------------------------------------------------------ one case
-def observe(text, rng_edits=None):
+def observe(text, rng_edits=None, opt_ops=()):
     """Run the implementation on a text; returns (Gallina case term, info)."""
     ins = instr()
     info = {'len': len(text)}
@@ -294,23 +358,39 @@ def observe(text, rng_edits=None):
         else:
             recs.append(f'(mkRec 1 {enc(rec.name)} {enc(rec.raw_name)} {enc(rec.content)} [] None None)')
     str_eq = (str(cs) == text) if cs is not None else False
-    edits, ekinds = [], []
+    edits, ekinds, opts, okinds = [], [], [], []
     if cs is not None and rng_edits is not None:
         edits, ekinds = gen_edits(rng_edits, cs, ins)
+        opts, okinds = gen_opt_edits(rng_edits, cs, ins, opt_ops)
     info.update(err=err, nrecs=len(chunks), nparsed=sum(1 for o in obs if o[1] is not None and hasattr(o[1], 'root')),
-                kinds=sorted({o[1].name for o in obs if o[1] is not None}), edits=ekinds, str_eq=str_eq)
+                kinds=sorted({o[1].name for o in obs if o[1] is not None}), edits=ekinds, str_eq=str_eq, opts=okinds)
     term = ('(mkCase ' + enc(text) + '\n ' + enc(first) + '\n ' + ct.lst([enc(c) for c in chunks]) + '\n '
-            + ct.lst(recs) + f'\n {err} {ct.boolean(str_eq)} names steps\n ' + ct.lst(edits) + ')')
+            + ct.lst(recs) + f'\n {err} {ct.boolean(str_eq)} names steps\n ' + ct.lst(edits) + '\n ' + ct.lst(opts) + ')')
     return term, info
 
 
 # ------------------------------------------------------------------ classification
+# text-level findings: oracle tag -> (guard tag that must accompany every occurrence, finding id)
+T_FINDINGS = {31: (231, 'C03-SETOPTION-VALUELESS'), 32: (232, 'C03-REMOVE-OPTION-FIRST')}
+
+
 def classify(ctx, spec, tags, info):
+    count = {}
+    for t in tags:
+        count[t] = count.get(t, 0) + 1
     tags = set(tags)
     corr = sorted(t for t in tags if t in CORR)
     oracle = sorted(t for t in tags if t in ORACLE)
     status = 'ok'
     for t in oracle:
+        guard, fid = T_FINDINGS.get(t, (None, None))
+        # known only when the faithful model explains it (no tag 29), every failing call has its guard false, and the finding is open
+        if fid and 29 not in tags and count[t] <= count.get(guard, 0) and open_finding(ctx, fid):
+            ctx.coverage.setdefault('known_hits', {}).setdefault(fid, 0)
+            ctx.coverage['known_hits'][fid] += 1
+            if status == 'ok':
+                status = 'known'
+            continue
         ctx.violation(TAGS[t], {'spec': spec, 'tags': sorted(tags), 'tag_meaning': TAGS[t]})
         status = 'violation'
     if corr and status != 'violation':
@@ -323,16 +403,17 @@ def classify(ctx, spec, tags, info):
 
 def run_texts(ctx, specs, label, with_edits=True):
     terms, infos = [], []
-    erng = random.Random(f'{ctx.seed}-{label}-edits')
     t0 = time.time()
-    for spec in specs:
-        term, info = observe(spec['text'], erng if with_edits else None)
+    for k, spec in enumerate(specs):
+        # the random edit calls of a case are reproducible from the spec alone
+        spec.setdefault('edit_seed', f'{ctx.seed}-{label}-edits-{k}')
+        term, info = observe(spec['text'], random.Random(spec['edit_seed']) if with_edits else None, spec.get('opt_ops', ()))
         terms.append(term)
         infos.append(info)
     ctx.log(f'{label}: observed {len(specs)} texts in {time.time() - t0:.1f}s; '
             f'{sum(len(t) for t in terms) // 1024} KiB of terms')
     verdicts = ctx.run_cases(label, IMPORTS, 'case', terms, 'verdict', shard=15, prelude=instr().prelude())
-    stats = {'ok': 0, 'violation': 0, 'broken': 0}
+    stats = {'ok': 0, 'known': 0, 'violation': 0, 'broken': 0}
     for spec, tags, info in zip(specs, verdicts, infos):
         stats[classify(ctx, spec, tags, info)] += 1
     return verdicts, infos, stats
@@ -548,6 +629,21 @@ def gen_tables_gate(ctx):
 def finding_probes(ctx):
     """Replay the stored witness of every open finding on the real code (all C03 findings are model-level)."""
     open_f = [f for f in {f['id']: f for f in ctx.findings}.values() if open_finding(ctx, f['id'])]
+    text_f = [f for f in open_f if 'seed' not in f['witness']]
+    open_f = [f for f in open_f if 'seed' in f['witness']]
+    if text_f:
+        terms = []
+        for f in text_f:
+            w = f['witness']
+            term, _ = observe(w['text'], random.Random(w.get('edit_seed', 'w')), w.get('opt_ops', ()))
+            terms.append(term)
+        verdicts = ctx.run_cases('findings-text', IMPORTS, 'case', terms, 'verdict', prelude=instr().prelude())
+        for f, v in zip(text_f, verdicts):
+            guard = T_FINDINGS[f['expect_tag']][0]
+            if f['expect_tag'] in v and guard in v and 29 not in v:
+                ctx.known(f['id'])
+            else:
+                ctx.notes.append(f"finding_not_reproduced {f['id']} (tags {sorted(set(v))})")
     if not open_f:
         return
     specs = [f['witness'] for f in open_f]
@@ -658,6 +754,9 @@ def run(ctx):
         'with_NUL': sum(1 for v in verdicts if 206 in v),
         'edit_calls': {{1: 'insert_record', 2: 'remove_records', 3: 'replace_records', 4: 'replace_all', -4: 'replace_all ValueError'}[k]:
                        sum(1 for i in infos for e in i['edits'] if e == k) for k in (1, 2, 3, 4, -4)},
+        'option_edit_calls': {{1: 'set_option', 2: 'remove_option', 3: 'append_option', 4: 'prepend_option', 5: 'replace_option',
+                               -2: 'remove_option IndexError'}.get(k, str(k)): sum(1 for i in infos for e in i.get('opts', []) if e == k)
+                              for k in (1, 2, 3, 4, 5, -2)},
         'length_hist': {str(b): sum(1 for i in infos if b <= i['len'] < 2 * b) for b in (1, 64, 128, 256, 512, 1024, 2048, 4096)},
     }
     zipped = list(zip(specs, verdicts))
@@ -682,8 +781,8 @@ def replay(ctx, rep):
         print('tags', verdicts[0])
         print('statuses', statuses[0])
         return 1 if any(x in ('violation', 'broken') for x in statuses[0]) else 0
-    erng = random.Random('replay')
-    term, info = observe(spec['text'], erng)
+    erng = random.Random(spec.get('edit_seed', 'replay'))
+    term, info = observe(spec['text'], erng, spec.get('opt_ops', ()))
     verdicts = ctx.run_cases('replay', IMPORTS, 'case', [term], 'verdict', prelude=instr().prelude())
     tags = verdicts[0]
     print('text', json.dumps(spec['text']))
